@@ -292,12 +292,12 @@ class Pool(object):
         self.idle = set()
         self.busy = set()
         self.closed = False
+        self.count_lock = threading.Lock()
         for _ in range(config.THREADPOOL_SIZE_MIN):
             worker = Worker(self)
             self.idle.add(worker)
             worker.start()
         log.debug("worker pool created with initial size %d", self.num_workers())
-        self.count_lock = threading.Lock()
 
     def __enter__(self):
         return self
@@ -306,26 +306,30 @@ class Pool(object):
         self.close()
 
     def close(self):
-        if not self.closed:
+        with self.count_lock:
+            if self.closed:
+                return
             log.debug("closing down")
-            for w in list(self.busy):
-                w.process(None)
-            for w in list(self.idle):
-                w.process(None)
+            # the flag is set (and the sets are emptied) before any worker is signalled, all under the lock:
+            # process() cannot hand a job to a worker that is being told to exit, and a busy worker
+            # retires itself in notify_done() when its current job has ended. Busy workers are not
+            # signalled here because that would overwrite a job that was handed to them but not picked up yet.
             self.closed = True
-            time.sleep(0.1)
             idle, self.idle = self.idle, set()
             busy, self.busy = self.busy, set()
-            # check if the threads that are joined are not the current thread.
-            current_thread = threading.current_thread()
-            while idle:
-                p = idle.pop()
-                if p is not current_thread:
-                    p.join(timeout=0.1)
-            while busy:
-                p = busy.pop()
-                if p is not current_thread:
-                    p.join(timeout=0.1)
+            for w in idle:
+                w.process(None)
+        time.sleep(0.1)
+        # check if the threads that are joined are not the current thread.
+        current_thread = threading.current_thread()
+        while idle:
+            p = idle.pop()
+            if p is not current_thread:
+                p.join(timeout=0.1)
+        while busy:
+            p = busy.pop()
+            if p is not current_thread:
+                p.join(timeout=0.1)
 
     def __repr__(self):
         return "<%s.%s at 0x%x; %d busy workers; %d idle workers>" % \
@@ -335,27 +339,29 @@ class Pool(object):
         return len(self.busy) + len(self.idle)
 
     def process(self, job):
-        if self.closed:
-            raise PoolError("job queue is closed")
-        if self.idle:
-            worker = self.idle.pop()
-        elif self.num_workers() < config.THREADPOOL_SIZE:
-            worker = Worker(self)
-            worker.start()
-        else:
-            raise NoFreeWorkersError("no free workers available, increase thread pool size")
-        self.busy.add(worker)
-        worker.process(job)
-        log.debug("worker counts: %d busy, %d idle", len(self.busy), len(self.idle))
+        with self.count_lock:
+            if self.closed:
+                raise PoolError("job queue is closed")
+            if self.idle:
+                worker = self.idle.pop()
+            elif self.num_workers() < config.THREADPOOL_SIZE:
+                worker = Worker(self)
+                worker.start()
+            else:
+                raise NoFreeWorkersError("no free workers available, increase thread pool size")
+            self.busy.add(worker)
+            worker.process(job)
+            log.debug("worker counts: %d busy, %d idle", len(self.busy), len(self.idle))
 
     def notify_done(self, worker):
-        if worker in self.busy:
-            self.busy.remove(worker)
-        if self.closed:
-            worker.process(None)
-            return
-        if len(self.idle) >= config.THREADPOOL_SIZE_MIN:
-            worker.process(None)
-        else:
-            self.idle.add(worker)
-        log.debug("worker counts: %d busy, %d idle", len(self.busy), len(self.idle))
+        with self.count_lock:
+            if worker in self.busy:
+                self.busy.remove(worker)
+            if self.closed:
+                worker.process(None)
+                return
+            if len(self.idle) >= config.THREADPOOL_SIZE_MIN:
+                worker.process(None)
+            else:
+                self.idle.add(worker)
+            log.debug("worker counts: %d busy, %d idle", len(self.busy), len(self.idle))
